@@ -159,6 +159,14 @@ theorem rxData_ok (P : RChunk → Prop) (rx rx' : Rx) (ins ins' : List (Nat × I
     obtain ⟨_, rfl, rfl⟩ := hr
     exact ⟨h, fun m hm => by simp at hm⟩
   · have hget := streamsOk_get P ins c.sid h
+    generalize (if (dictGet ins c.sid).isSome then ins else ins ++ [(c.sid, ({} : InStream))]) = insX at hr hget
+    by_cases hg : (((dictGet insX c.sid).getD {}).reasm.any fun x => x.tsn == c.tsn) = true
+    · -- the chunk is still waiting in the reassembly queue: dropped (the stream entry may have been created)
+      rw [if_pos hg] at hr
+      simp only [Outcome.ok.injEq, Prod.mk.injEq] at hr
+      obtain ⟨_, rfl, rfl⟩ := hr
+      exact ⟨hget.1, fun m hm => by simp at hm⟩
+    rw [if_neg hg] at hr
     split at hr
     · rename_i s1 ha
       split at hr
